@@ -4,6 +4,9 @@
 #include "lsv.h"
 #include "matrix.h"
 #include "pls.h"
+#ifndef HP_PREFILL
+#define HP_PREFILL 0
+#endif
 static double sgn_range(void){ double v=in_double(-1e3,1e3); ASSUME(v>=0.02 || v<=-0.02); return v; }
 void harness(void){
   PLSMODEL *m; NewPLSModel(&m);
@@ -17,7 +20,12 @@ void harness(void){
 #if HP_PRE>=2
   for(size_t j=0;j<HP_NY;j++){ scal[j]=sgn_range(); DVectorAppend(m->ycolscaling,scal[j]); }
 #endif
-  matrix *t,*y; NewMatrix(&t,HP_N,HP_NLV); initMatrix(&y); for(size_t i=0;i<HP_N;i++)for(size_t k=0;k<HP_NLV;k++) t->data[i][k]=in_double(-1e3,1e3);
+  matrix *t,*y; NewMatrix(&t,HP_N,HP_NLV);
+#if HP_PREFILL
+  NewMatrix(&y,HP_N,HP_NY); for(size_t i=0;i<HP_N;i++)for(size_t j=0;j<HP_NY;j++) y->data[i][j]=in_double(-1e3,1e3);
+#else
+  initMatrix(&y);
+#endif for(size_t i=0;i<HP_N;i++)for(size_t k=0;k<HP_NLV;k++) t->data[i][k]=in_double(-1e3,1e3);
   PLSYPredictor(t,m,HP_A,y);
   CHECK(y->row==HP_N && y->col==HP_NY, "prediction is objects x responses");
   size_t a = HP_A>HP_NLV ? HP_NLV : HP_A;
@@ -33,7 +41,12 @@ void harness(void){
 #if HP_PRE>=2
   for(size_t j=0;j<HP_M;j++){ scal[j]=sgn_range(); DVectorAppend(m->xcolscaling,scal[j]); }
 #endif
-  matrix *x,*ts; NewMatrix(&x,HP_N,HP_M); initMatrix(&ts); double E[HP_N][HP_M];
+  matrix *x,*ts; NewMatrix(&x,HP_N,HP_M);
+#if HP_PREFILL
+  { size_t aa = HP_A>HP_NLV ? HP_NLV : HP_A; NewMatrix(&ts,HP_N,aa); for(size_t i=0;i<HP_N;i++)for(size_t k=0;k<aa;k++) ts->data[i][k]=in_double(-1e3,1e3); }
+#else
+  initMatrix(&ts);
+#endif double E[HP_N][HP_M];
   for(size_t i=0;i<HP_N;i++)for(size_t j=0;j<HP_M;j++){ x->data[i][j]=in_double(-1e3,1e3); E[i][j]=(x->data[i][j]-mean[j])/scal[j]; }
   PLSScorePredictor(x,m,HP_A,ts);
   size_t a = HP_A>HP_NLV ? HP_NLV : HP_A;
